@@ -6,12 +6,17 @@ import numpy as np
 
 import common
 import impl
+import seedcache
 import seedprog
 
 RULE = ("random seeded programs (sample sites, vectorised sites, lax.cond, lax.scan, nesting depth<=2/3) with a key-revealing probe sampler: "
         "seed(f)(key,args) run fresh, after unseeded sampling (global counter advanced), after other seeded programs (staging caches primed), "
         "under jit, vmap over keys and jit(vmap); every run compared bit-for-bit with the key paths of the Lean model evaluated with "
-        "jax.random; keyword-argument and long-lived-binder scenarios; non-trivial = program with a cond or scan; distinct by program text")
+        "jax.random; keyword-argument and long-lived-binder scenarios; staging caches (seedcache.py): call histories over one long-lived sampler "
+        "whose calls differ only in keyword names / weak vs strong scalar type / shape / static data / pytree structure, eager-jit-vmap-jit(vmap), "
+        "long-lived and fresh function objects, unseeded calls interleaved; every seeded result compared with the first call of a fresh "
+        "sampler+function and with the cache-sharing prediction of the Lean model (driver command seedcache); "
+        "non-trivial = program with a cond or scan / history over two or more forms; distinct by program text / history")
 
 
 def same(a, b):
@@ -209,6 +214,11 @@ def adev_sites(G, ctx):
         ctx.count("adev-sites-under-seed")
 
 
+def cache_histories(G, ctx, family, shard_i):
+    """the staging caches observed through call histories over one long-lived sampler (harness/seedcache.py; Lean Model/SeedCache.lean)"""
+    seedcache.check_family(G, ctx, family, random.Random(ctx.seed * 7919 + shard_i), 10 if ctx.thorough else 3)
+
+
 def shard(ctx, shard_i, n):
     G = impl.load()
     rng = random.Random(ctx.seed * 977 + shard_i)
@@ -217,6 +227,8 @@ def shard(ctx, shard_i, n):
         argument_kinds(G, ctx)
     if shard_i == 2:
         adev_sites(G, ctx)
+    if 3 <= shard_i < 3 + seedcache.N_FAMILIES:
+        cache_histories(G, ctx, shard_i - 3, shard_i)
     if shard_i == 0:
         kwargs_and_binders(G, ctx)
         check_prog(G, ctx, [("site", 1), ("vsite", 2, 3), ("scan", [("site", 3)], 2), ("site", 4)], 42, hist)
@@ -243,12 +255,16 @@ def replay(ctx, payload):
         argument_kinds(G, ctx)
     elif c.get("kind") == "adev-sites-under-seed":
         adev_sites(G, ctx)
+    elif c.get("kind") == "cache-history":
+        seedcache.replay_case(G, ctx, c)
     else:
         kwargs_and_binders(G, ctx)
     for i in ctx.issues:
         print("REPRODUCED:", i["what"])
     for i in ctx.corr_breaks:
         print("CORRESPONDENCE:", i["what"])
-    if not ctx.issues and not ctx.corr_breaks:
+    for k, h in ctx.known_hits.items():
+        print("REPRODUCED (known finding):", h["what"])
+    if not ctx.issues and not ctx.corr_breaks and not ctx.known_hits:
         print("not reproduced")
     return 1 if ctx.issues else 0
